@@ -1,9 +1,10 @@
 """C19 — rate limiter admits no more than the contract and never starves a subscriber."""
 import verif as V
+import locks
 import cshim
 
 PROP = "C19"
-SPEC = "Bng.Spec.C19"
+SPEC = ["Bng.Spec.C19", "Bng.Spec.C19Locks"]
 MON = ["over-admit", "starved", "zero-rate", "policy"]
 COMP = V.Component("qos", monitors=MON)
 COMPS = [COMP]
@@ -32,6 +33,7 @@ ASSUME = [
     "backlogged = every gap earns at most the previously offered packet and cannot overflow the bucket "
     "(Bng.TokenBucket.Backlogged, decidable from the arrival sequence)",
 ]
+ASSUME = ASSUME + [locks.ASSUME]
 
 
 def pre(ctx):
@@ -40,13 +42,13 @@ def pre(ctx):
 
 
 def run(tier, seed):
-    return V.standard_check(PROP, SPEC, COMPS, LEVEL, ASSUME, tier, seed, pre=pre)
+    return V.standard_check(PROP, SPEC, COMPS, LEVEL, ASSUME, tier, seed, pre=locks.with_locks(pre))
 
 
 def replay(path):
     ctx = V.Ctx(PROP, "quick", 0)
     try:
         pre(ctx)
-        return V.replay(PROP, COMPS, path, SPEC)
+        return V.replay(PROP, COMPS, path, SPEC, pre=locks.with_locks())
     finally:
         ctx.cleanup()
